@@ -41,6 +41,9 @@ HeadNotFullAfterSet == (last = "set" /\ nw > 0) => ~Full(offset, bits)
 \* the cheap monitor used at real scale by the trace specification is equivalent to the history form
 MonitorEquiv == everTrim = Trim(ever, offset) /\ bits = everTrim
 
+\* the functional forms used by behaviour generation are the actions
+FunctionalFormsAgree == [][/\ (last' = "compact" => tbvars' = CompactF(tbvars))
+                           /\ (last' = "set" => \E idx \in 0..MaxIdx : tbvars' = SetF(tbvars, idx))]_vars
 OffsetMonotone   == [][offset' >= offset]_vars
 CompactKeepsGets == [][last' = "compact" =>
                         \A j \in 0..(offset + W * nw - 1) : Get1Val(j)' = Get1Val(j)]_vars
